@@ -368,9 +368,20 @@ func runCheck(prop, tier string, writeLock bool) int {
 	// is still undecided after that is reported.
 	{
 		var retry []*Obligation
+		var kf0 KnownFindings
+		loadJSON(filepath.Join(verifRoot, "known-findings.json"), &kf0)
+		knownObl := map[string]bool{}
+		for _, k := range kf0.Open {
+			if k.Property == prop {
+				knownObl[k.Obligation] = true
+			}
+		}
 		for _, o := range allObls {
 			if o.Cover || o.SMTFile == "" {
 				continue
+			}
+			if knownObl[retSuffix.ReplaceAllString(o.Name, "")] {
+				continue // an open known finding: expected to fail, no second attempt
 			}
 			if o.Res.Status == "unknown" || o.Res.Status == "timeout" {
 				retry = append(retry, o)
